@@ -369,6 +369,26 @@ pub fn run(ctx: &Ctx) {
     });
     ctx.space(&format!("escape/unescape: all strings of length <= {} over {{a, '.', '\\'}}", ctx.tier.pick(8, 10)), strs.len() as u64, "complete");
     ctx.sample(json!({"kind": "escape", "s": "a.\\.\\\\"}));
+    {
+        // every Unicode scalar value, alone and between the two special characters
+        let cps: Vec<u32> = (0..=0x10ffffu32).filter(|c| char::from_u32(*c).is_some()).collect();
+        let cchunks: Vec<&[u32]> = cps.chunks(8192).collect();
+        par_shards(ctx, &cchunks, |cs, t: &mut Tally| {
+            for &c in cs.iter() {
+                let ch = char::from_u32(c).unwrap();
+                for s in [ch.to_string(), format!("a{}.", ch), format!("{}\\{}", ch, ch)] {
+                    t.evals += 1;
+                    t.nontrivial += 1;
+                    let f = check_escape(&s);
+                    if !f.is_empty() {
+                        ctx.violations(f);
+                    }
+                }
+            }
+            t.outcome("escape");
+        });
+        ctx.space("escape/unescape: every Unicode scalar value c in the strings c, a c '.', c '\\' c", cps.len() as u64 * 3, "complete");
+    }
     let _: HashMap<u8, u8> = HashMap::new();
 }
 
